@@ -19,6 +19,10 @@ A simulation is described by a plain (JSON-able) dict::
                    # optional: this restart ran on another process count (as in
                    # aurel's own fixtures): its own cuts / file layout, same grids
                    "levels": [{"decomp": ..., "order": ...}, ...], "per_proc": bool,
+                   # optional: a Carpet regrid inside this restart: from iteration `it` on the levels are
+                   # cut differently (other number of components allowed in the one-file layouts; the
+                   # dataset names ` c=<k>` and the iorigins follow; the grids themselves do not change)
+                   "regrid": {"it": N, "levels": [{"decomp": ..., "order": ...}, ...]},
                    # optional: variables this restart did NOT output (their file / group file is absent)
                    "skip_vars": [aurel scalar names],
                    # optional: Carpet checkpoint files written by this restart
@@ -272,9 +276,9 @@ class Sim:
             per_proc = r.get("per_proc", d["per_proc"])
             try:
                 for base, members in self.files_for(r).items():
-                    for rl, lev in enumerate(d["levels"]):
-                        if "levels" in r:
-                            lev = dict(lev, **r["levels"][rl])
+                    for rl, its_of_epoch in ((rl, its) for rl in range(len(d["levels"]))
+                                             for its in self.epochs(r)):
+                        lev = self.level_at(r, rl, its_of_epoch[0])
                         chunks = canonical_chunks(lev["decomp"])
                         n = len(chunks)
                         for j, ch in enumerate(chunks):
@@ -286,7 +290,7 @@ class Sim:
                             f = handles[fn]
                             for v in members:
                                 thorn, ev, _ = VARS[v]
-                                for it in r["its"]:
+                                for it in its_of_epoch:
                                     key = "%s::%s it=%d tl=0%s rl=%d%s" % (
                                         thorn, ev, it, " m=0" if d["m0"] else "", rl, " c=%d" % c if n > 1 else "")
                                     ds = f.create_dataset(key, data=self.raw_block(v, it, rl, r["number"], ch, c))
@@ -311,6 +315,22 @@ class Sim:
             lev = dict(lev, **r["levels"][rl])
         return lev
 
+    def level_at(self, r, rl, it):
+        """the level as restart `r` had it cut at iteration `it` (after a regrid: the new cuts)"""
+        lev = self.level_of(r, rl)
+        rg = r.get("regrid")
+        if rg and it >= rg["it"]:
+            lev = dict(lev, **rg["levels"][rl])
+        return lev
+
+    @staticmethod
+    def epochs(r):
+        """the iterations of restart `r` grouped by the decomposition in force"""
+        rg = r.get("regrid")
+        if not rg:
+            return [list(r["its"])]
+        return [e for e in ([i for i in r["its"] if i < rg["it"]], [i for i in r["its"] if i >= rg["it"]]) if e]
+
     def checkpoint_datasets(self, r, it):
         """{file name: [(key, block, attrs)]} of the checkpoint restart `r` wrote at `it`"""
         d = self.desc
@@ -318,7 +338,7 @@ class Sim:
         per_proc = ck.get("per_proc", r.get("per_proc", d["per_proc"]))
         out = {}
         for rl in range(len(d["levels"])):
-            lev = self.level_of(r, rl)
+            lev = self.level_at(r, rl, it)
             chunks = canonical_chunks(lev["decomp"])
             n = len(chunks)
             for j, ch in enumerate(chunks):
@@ -485,6 +505,8 @@ def add_random_checkpoints(rng, desc, prob=0.8):
         its = sorted(rng.sample(r["its"], rng.randint(1, len(r["its"]))))
         counts = {len(x["order"]) for x in r["levels"]} if "levels" in r else \
             {nchunks(lv["decomp"]) for lv in desc["levels"]}
+        if "regrid" in r:
+            counts = counts | {len(x["order"]) for x in r["regrid"]["levels"]}
         multi = len(counts) == 1 and min(counts) >= 2
         r["checkpoints"] = {"its": its, "per_proc": multi and rng.random() < 0.6, "ntl": rng.randint(1, 3),
                             "extra": rng.random() < 0.5}
@@ -509,4 +531,30 @@ def add_random_skips(rng, desc, prob=1.0):
         if left:
             r["skip_vars"] = [c]
             break
+    return desc
+
+
+def add_random_regrid(rng, desc, kmax=(3, 2, 2), prob=1.0, single_to_many=False):
+    """give one restart a regrid at one of its iterations (not the first): from there on every level
+    is cut anew.  One file per process: the number of components stays what it was.  Unless
+    `single_to_many`, a level keeps having one component (names without ` c=`) or several."""
+    cand = [r for r in desc["restarts"] if len(r["its"]) >= 2 and "regrid" not in r]
+    if not cand or rng.random() >= prob:
+        return desc
+    r = rng.choice(cand)
+    per_proc = r.get("per_proc", desc["per_proc"])
+    for _ in range(60):
+        lv = []
+        for rl, lev in enumerate(desc["levels"]):
+            dec, order = _redraw(rng, lev, kmax)
+            lv.append({"decomp": dec, "order": order})
+        old = [len((r["levels"][rl] if "levels" in r else desc["levels"][rl])["order"])
+               for rl in range(len(desc["levels"]))]
+        new = [len(x["order"]) for x in lv]
+        if per_proc and new != old:
+            continue
+        if not single_to_many and [n == 1 for n in new] != [n == 1 for n in old]:
+            continue
+        r["regrid"] = {"it": rng.choice(r["its"][1:]), "levels": lv}
+        break
     return desc
